@@ -89,6 +89,9 @@ func (s *Swarm[A, Pub]) Ask(ctx context.Context, resp []byte, dst A, req p2p.IOV
 	if err := ask.await(ctx); err != nil {
 		return 0, errors.Wrapf(err, "waiting for ask response from %v", dst)
 	}
+	if ask.err != nil {
+		return 0, ask.err
+	}
 	if ask.errCode > 0 {
 		err := AppError{
 			Addr:     dst,
